@@ -80,7 +80,8 @@ func gen(r *hlib.Rand, n int, tier, profile string, emit func(string, ...any)) {
 	for i := 0; i < ng; i++ {
 		from := hlib.Pick(r, "192.0.2.2:4242", "192.0.2.2:4242", "192.0.2.9:4242", "10.0.0.77:4242", "10.0.0.2:4242", "10.0.1.1:4242",
 			"9.255.255.255:1", "192.168.0.5:4242", "192.168.255.255:9", "[2001:db8::1]:4242", "[fd00::1]:4242", "8.8.8.8:53")
-		allow := hlib.Pick(r, "-", "-", "00000000/0=T,c0a80000/16=F", "c0000200/24=T", "00000000/0=T,c0000209/32=F,00000000000000000000000000000000/0=F", "08080808/32=F")
+		allow := hlib.Pick(r, "-", "-", "00000000/0=T,c0a80000/16=F", "c0000200/24=T", "00000000/0=T,c0000209/32=F,00000000000000000000000000000000/0=F", "08080808/32=F",
+			"00000000/0=T~0a000000/24~c0000209/32=F", "00000000/0=T~0a000002/32~00000000/0=F,c0000200/24=T", "08080808/32=F~0a000000/24~09ffffff/32=F,c0a80000/16=F", "00000000/0=T~0a000003/32~00000000/0=F")
 		emit("gate %s %d %s %s", hlib.Pick(r, "hs1", "hs2", "roam", "roam"), hlib.Pick(r, 1, 2), allow, hlib.AddrPortHex(netip.MustParseAddrPort(from)))
 	}
 	for i := 0; i < n; {
@@ -636,11 +637,17 @@ func gate(a []string) string {
 	}()
 	A, B := net.Nodes[0], net.Nodes[1]
 	if a[3] != "-" {
-		m := map[string]any{}
-		for _, e := range strings.Split(a[3], ",") {
-			k, v, _ := strings.Cut(e, "=")
-			m[hlib.ParsePrefixHex(k).String()] = v == "T"
+		// <global entries>[~<range prefix>~<range entries>]
+		parts := strings.Split(a[3], "~")
+		list := func(s string) map[string]any {
+			m := map[string]any{}
+			for _, e := range strings.Split(s, ",") {
+				k, v, _ := strings.Cut(e, "=")
+				m[hlib.ParsePrefixHex(k).String()] = v == "T"
+			}
+			return m
 		}
+		m := list(parts[0])
 		lhc, _ := A.C.Settings["lighthouse"].(map[string]any)
 		if lhc == nil {
 			return "err no lighthouse settings"
@@ -654,6 +661,9 @@ func gate(a []string) string {
 			nl[k] = v
 		}
 		nl["remote_allow_list"] = m
+		if len(parts) == 3 {
+			nl["remote_allow_ranges"] = map[string]any{hlib.ParsePrefixHex(parts[1]).String(): list(parts[2])}
+		}
 		ns["lighthouse"] = nl
 		y, err := yaml.Marshal(ns)
 		if err != nil {
